@@ -18,7 +18,7 @@ type Fam = (&'static str, &'static str, Option<&'static [&'static str]>);
 fn families(property: &str) -> Vec<Fam> {
     const C02_CORE: &[&str] = &["routing", "flush", "probe", "panic", "spin", "livelock"];
     // "flush": data handed to a sink but not flushed while nothing will wake the router is work the router sleeps on
-    const C09_CORE: &[&str] = &["spin", "livelock", "sleep", "abandoned", "flush"];
+    const C09_CORE: &[&str] = &["spin", "livelock", "sleep", "abandoned", "flush", "starved-after-failure"];
     // a peer whose registration was accepted (the server answered Ok) and then never reached the router
     const C11_STORM: &[&str] = &["abandoned", "panic", "spin", "livelock"];
     const C01_CORE: &[&str] = &["delivery", "flush", "probe", "panic"];
@@ -30,7 +30,8 @@ fn families(property: &str) -> Vec<Fam> {
         "C01" => vec![("pubsub", "c01", None), ("pubsub", "c01", None), ("pubsub", "c08", None), ("pubsub", "c16", Some(C01_CORE)), ("pubsub", "firehose", None)],
         // replier bind/unbind interleaved with requests and replies is part of the quantifier
         "C02" => vec![("reqrep", "c02", None), ("reqrep", "c02", None), ("reqrep", "c10", Some(C02_CORE)), ("reqrep", "c08", Some(C02_CORE)), ("reqrep", "firehose", None)],
-        "C08" => vec![("pubsub", "c08", None), ("reqrep", "c08", None)],
+        // mass failures (a client with dozens of streams loses its connection) live in the burst family
+        "C08" => vec![("pubsub", "c08", None), ("reqrep", "c08", None), ("pubsub", "burst", None), ("reqrep", "burst", None)],
         // "all reachable router states" includes the states reached through faults and re-binding
         "C09" => vec![("pubsub", "c09", None), ("reqrep", "c09", None), ("pubsub", "c09", None), ("reqrep", "c09", None), ("pubsub", "c08", Some(C09_CORE)), ("reqrep", "c08", Some(C09_CORE)), ("reqrep", "c10", Some(C09_CORE)), ("pubsub", "burst", None), ("reqrep", "burst", None), ("pubsub", "firehose", None), ("reqrep", "firehose", None)],
         "C10" => vec![("reqrep", "c10", None)],
@@ -45,12 +46,13 @@ fn families(property: &str) -> Vec<Fam> {
 /// oracle classes that belong to another property's statement and are only counted here
 fn excluded(property: &str) -> &'static [&'static str] {
     match property {
-        "C01" => &["sleep", "abandoned"],
-        "C02" => &["sleep", "abandoned", "binding"],
+        // "starved-after-failure": healthy peers' input left unread right after other peers failed — C08's and C09's
+        "C01" => &["sleep", "abandoned", "starved-after-failure"],
+        "C02" => &["sleep", "abandoned", "binding", "starved-after-failure"],
         "C08" => &["sleep", "abandoned"],
-        "C10" => &["sleep", "abandoned"],
-        "C11" => &["sleep"],
-        "C16" => &["sleep", "abandoned"],
+        "C10" => &["sleep", "abandoned", "starved-after-failure"],
+        "C11" => &["sleep", "starved-after-failure"],
+        "C16" => &["sleep", "abandoned", "starved-after-failure"],
         _ => &[],
     }
 }
